@@ -27,15 +27,15 @@ Fns == {"airtovac", "vactoair"}
 (*   q0A/q0nm/q0um  scalar Quantity  array   1-d ndarray            qA/qnm/qum 1-d Quantity *)
 (* "float, array and Quantity input": an array is an array whatever its element type, and *)
 (* an integer-valued wavelength is that wavelength:                                       *)
-(*   pyint Python int   npint / npint32 numpy integer scalars   iarray0 0-d integer array *)
-(*   iarray / iarray32  1-d int64 / int32 arrays      qAi / qnmi  Quantity built from an  *)
+(*   pyint Python int   npint numpy integer scalar   iarray0 0-d integer array            *)
+(*   iarray 1-d integer array (of any WIDTH, see Widths)   qAi / qnmi  Quantity built from an *)
 (*   integer array (Angstrom / nm)    npfloat32, f32array  single-precision scalar, array *)
 DoubleScalarKinds == {"float", "npfloat", "array0", "q0A", "q0nm", "q0um"}
 DoubleArrayKinds == {"array", "qA", "qnm", "qum"}
-IntegerKinds == {"pyint", "npint", "npint32", "iarray0", "iarray", "iarray32", "qAi", "qnmi"}
+IntegerKinds == {"pyint", "npint", "iarray0", "iarray", "qAi", "qnmi"}
 SingleKinds == {"npfloat32", "f32array"}
-ScalarKinds == DoubleScalarKinds \cup {"pyint", "npint", "npint32", "iarray0", "npfloat32"}
-ArrayKinds == DoubleArrayKinds \cup {"iarray", "iarray32", "qAi", "qnmi", "f32array"}
+ScalarKinds == DoubleScalarKinds \cup {"pyint", "npint", "iarray0", "npfloat32"}
+ArrayKinds == DoubleArrayKinds \cup {"iarray", "qAi", "qnmi", "f32array"}
 Kinds == ScalarKinds \cup ArrayKinds
 QuantityKinds == {"q0A", "q0nm", "q0um", "qA", "qnm", "qum", "qAi", "qnmi"}
 UnitOf(k) == IF k \in {"q0nm", "qnm", "qnmi"} THEN "nm" ELSE IF k \in {"q0um", "qum"} THEN "um" ELSE "A"
@@ -44,12 +44,12 @@ UnitOf(k) == IF k \in {"q0nm", "qnm", "qnmi"} THEN "nm" ELSE IF k \in {"q0um", "
 InAngstrom(k) == IF k \in {"q0A", "q0nm", "q0um"} THEN "q0A" ELSE IF k \in {"qA", "qnm", "qum"} THEN "qA"
                  ELSE IF k = "qnmi" THEN "qAi" ELSE k
 ScalarOf(k) == IF k = "array" THEN "float" ELSE IF k = "qA" THEN "q0A" ELSE IF k = "qnm" THEN "q0nm"
-               ELSE IF k = "qum" THEN "q0um" ELSE IF k \in {"iarray", "iarray32"} THEN "pyint"
+               ELSE IF k = "qum" THEN "q0um" ELSE IF k = "iarray" THEN "pyint"
                ELSE IF k = "qAi" THEN "q0A" ELSE IF k = "qnmi" THEN "q0nm"
                ELSE IF k = "f32array" THEN "npfloat32" ELSE k
-DoubleOf(k) == IF k \in {"pyint", "npint", "npint32", "npfloat32"} THEN "float"
+DoubleOf(k) == IF k \in {"pyint", "npint", "npfloat32"} THEN "float"
                ELSE IF k = "iarray0" THEN "array0"
-               ELSE IF k \in {"iarray", "iarray32", "f32array"} THEN "array"
+               ELSE IF k \in {"iarray", "f32array"} THEN "array"
                ELSE IF k = "qAi" THEN "qA" ELSE IF k = "qnmi" THEN "qnm" ELSE k
 (* how closely two answers for the same wavelength must agree: a single-precision INPUT   *)
 (* cannot demand more than single precision (the answer may be computed in either);       *)
@@ -85,9 +85,21 @@ Layouts == {"plain", "readonly", "strided", "byteswapped", "transposed2d"}
 LayoutsOf(kind) == IF kind \in ScalarKinds THEN {"plain"}
                    ELSE IF kind \in QuantityKinds THEN {"plain", "readonly", "strided"} ELSE Layouts
 ABLayouts == {"plain", "readonly", "strided", "byteswapped", "fortran"}
+(* Nor is the numeric TYPE in which integral values are handed over: a numpy-typed integer *)
+(* wavelength may come in any width that holds it.  "na" for kinds without a numpy integer *)
+(* type.  A wavelength at or above 2000 A does not fit in 8 bits (for nm Quantities the     *)
+(* same restriction is kept, conservatively).                                               *)
+Widths == {"int64", "int32", "int16", "uint16", "uint8"}
+WidthKinds == {"npint", "iarray0", "iarray", "qAi", "qnmi"}
+Fits(width, pat) == width = "uint8" => \A p \in DOMAIN pat : pat[p] = "below"
+(* the <<layout, width>> combinations enumerated for a kind *)
+Variants(kind) == IF kind = "iarray" THEN Layouts \X Widths
+                  ELSE IF kind \in {"qAi", "qnmi"} THEN ({"plain"} \X Widths) \cup ({"plain", "readonly", "strided"} \X {"int64"})
+                  ELSE IF kind \in {"npint", "iarray0"} THEN {"plain"} \X Widths
+                  ELSE LayoutsOf(kind) \X {"na"}
 
-(* one call: [fn, kind, pat, layout] with pat a non-empty sequence of classes (length 1 for scalar kinds); *)
-(* Expected does not look at the layout                                                                    *)
+(* one call: [fn, kind, pat, layout, width] with pat a non-empty sequence of classes (length 1 for scalar kinds); *)
+(* Expected looks neither at the layout nor at the width                                                   *)
 Expected(c) == [raises |-> FALSE,
                 form |-> AnswerForm(c.kind),
                 len |-> Len(c.pat),
@@ -124,10 +136,17 @@ ElementTypeIndependent(c) == LET f == [c EXCEPT !.kind = DoubleOf(c.kind)] IN
      /\ Expected(c).allowed = Expected(f).allowed
      /\ Expected(c).form = Expected(f).form
      /\ (c.kind \in IntegerKinds => Expected(c).precision = "double")
-LayoutIndependent(c) == \A l \in LayoutsOf(c.kind) : Expected([c EXCEPT !.layout = l]) = Expected(c)
+(* (stated against the plain / 64-bit variant; by transitivity any two variants agree)      *)
+BaseWidth(kind) == IF kind \in WidthKinds THEN "int64" ELSE "na"
+LayoutIndependent(c) == /\ <<c.layout, c.width>> \in Variants(c.kind)
+                        /\ <<"plain", BaseWidth(c.kind)>> \in Variants(c.kind)
+                        /\ Expected([c EXCEPT !.layout = "plain", !.width = BaseWidth(c.kind)]) = Expected(c)
 TotalOnDomain(c) == ~Expected(c).raises /\ Expected(c).inputkept /\ Expected(c).len = Len(c.pat)
 
-(* ---- named deviation (what the code does on the unfixed tree) ---- *)
+(* ---- named deviations (what the code does on the unfixed tree) ---- *)
+(* D-C19-2 (filter_thru, no operator: it concerns the recorded laws): a flux image with an   *)
+(* integer dtype (counts) is integrated in that integer type - every band flux is truncated, *)
+(* in practice to 0 - so ConstantInConstantOut / WithinMinMax / Linear fail for such calls.   *)
 (* D-C19-1: every 0-dimensional input that has a dtype (numpy scalar, 0-d ndarray, scalar  *)
 (* Quantity) and is not below the guard raises TypeError.                                  *)
 Dev_ZeroDimRaises(c) ==
@@ -148,11 +167,19 @@ Shift(form, b) == IF form = "mag" THEN ABOffsetMilli[b]
                   ELSE 0 - 2 * ABOffsetMilli[b]
 (* one AB case: [form, band, m0] with m0 the input level in milli-mag (for flux / ivar the *)
 (* input value is the one whose -2.5 log10 is m0); expected level of the output            *)
-ExpectedAB(c) == [shift |-> Shift(c.form, c.band), level |-> c.m0 + Shift(c.form, c.band)]
+(* ntype: "float64" or an integer width (the array holds integral values in that type).  The offsets are not    *)
+(* integral: an integer-typed array may be refused with a clear TypeError (rejectok) or answered in floating   *)
+(* point, but the answer is never truncated to the integer type.                                               *)
+ExpectedAB(c) == [shift |-> Shift(c.form, c.band), level |-> c.m0 + Shift(c.form, c.band), rejectok |-> c.ntype # "float64"]
+(* the input value of an AB case is integral (can be stored in an integer type) *)
+ABIntegral(c) == IF c.form = "mag" THEN c.m0 >= 0 /\ c.m0 % 1000 = 0 /\ c.m0 <= 200000
+                 ELSE c.m0 <= 0 /\ (0 - c.m0) % 2500 = 0 /\ c.m0 >= 0 - 5000
 (* laws tying the three forms to ONE offset per band *)
 MagFluxConsistent(b) == Shift("mag", b) = Shift("flux", b)          \* magnitude of the converted flux = converted magnitude
 SignalToNoiseKept(b) == 2 * Shift("flux", b) + Shift("ivar", b) = 0  \* flux * sqrt(ivar) unchanged: IvarFactor * FluxFactor^2 = 1
-ABLayoutIndependent(c) == \A l \in ABLayouts : ExpectedAB([c EXCEPT !.layout = l]) = ExpectedAB(c)
+ABLayoutIndependent(c) == \A l \in ABLayouts : \A w \in Widths :
+     /\ ExpectedAB([c EXCEPT !.layout = l]) = ExpectedAB(c)
+     /\ ExpectedAB([c EXCEPT !.ntype = w]).level = ExpectedAB(c).level        \* same values, same answer, whatever the type
 OffsetIndependentOfLevel(c) == ExpectedAB(c).level - c.m0 = ExpectedAB([c EXCEPT !.m0 = 0]).level
 
 (* ============== Part 3: laws over recorded call histories ============== *)
@@ -241,13 +268,15 @@ WSat(H, law, i) ==
     [] law \in {"AirVacAir", "VacAirVac"} -> ChainSat(H, i)
     [] law = "KindInvariance" -> KindSat(H, i)
 
-(* ---- AB history: H.obs[k] = [form, band, shift, resid]                                  *)
+(* ---- AB history: H.intinput, H.typeerror (the call refused the array with a TypeError),  *)
+(* H.raised (any other exception);  H.obs[k] = [form, band, shift, resid]                  *)
 (* shift = measured shift of element k rounded to milli-mag, resid = |measured - shift|   *)
 (* in units of 1e-9 mag rounded up.  One offset per band, the same in every row.           *)
 ABTolUnits == 10          \* 1e-8 mag (harness's judgement: the statement gives no tolerance)
-ABLaws == <<"ABOffset">>
-ABInst(H, law) == {<<k>> : k \in DOMAIN H.obs}
-ABSat(H, law, i) == LET o == H.obs[i[1]] IN o.shift = Shift(o.form, o.band) /\ o.resid < ABTolUnits
+ABLaws == <<"ABAnswers", "ABOffset">>
+ABInst(H, law) == IF law = "ABAnswers" THEN {<<1>>} ELSE {<<k>> : k \in DOMAIN H.obs}
+ABSat(H, law, i) == IF law = "ABAnswers" THEN ~H.raised /\ (H.typeerror => H.intinput)
+                    ELSE LET o == H.obs[i[1]] IN o.shift = Shift(o.form, o.band) /\ o.resid < ABTolUnits
 
 (* ---- filter_thru history (one wavelength solution, one mask) ----                       *)
 (* H.nq         number of (trace, band) slots; slot q = (trace-1)*5 + band                 *)
